@@ -3397,8 +3397,16 @@ fn main() {
             }
             let k = key.clone();
             // every failing schedule is reported; only the first one of a key is shrunk
-            let small = if shrunk_keys.insert(key.clone()) { shrink(s, &mut lean, &|o: &Outcome| o.spec.iter().any(|(kk, _)| *kk == k)) } else { s.clone() };
-            rep.spec_fail(key, what, json!({"line": sched_line(&small), "original": line}));
+            let first = shrunk_keys.insert(key.clone());
+            let small = if first { shrink(s, &mut lean, &|o: &Outcome| o.spec.iter().any(|(kk, _)| *kk == k)) } else { s.clone() };
+            // the description that goes with the shrunk schedule is the one of the shrunk schedule
+            let mut what = what.clone();
+            if first && sched_line(&small) != line {
+                if let Some((_, w2)) = run_sched(&small, &mut lean).spec.iter().find(|(kk, _)| *kk == k) {
+                    what = w2.clone();
+                }
+            }
+            rep.spec_fail(key, &what, json!({"line": sched_line(&small), "original": line}));
         }
     }
     if skipped > 0 {
